@@ -71,15 +71,17 @@ Definition symbol_identifier (t : text) : option Z :=
                            end
   | _ => None
   end.
+(* NewSymbolToken(table, text): the text, with its ID when the table has it *)
+Definition name_symbol_token (l : rlst) (t : text) : tok :=
+  {| tk_text := Some t;
+     tk_sid := match lst_find_by_name l t with Some id => to_i64 id | None => (-1)%Z end |}.
 (* newSymbolToken(table, text) *)
 Definition new_symbol_token (l : rlst) (t : text) : res tok :=
   match symbol_identifier t with
   | Some sid =>
     if (sid <? 0)%Z then Err
     else match tok_by_sid l (Z.to_N sid) with Some k => Ok k | None => Err end
-  | None =>
-    Ok {| tk_text := Some t;
-          tk_sid := match lst_find_by_name l t with Some id => to_i64 id | None => (-1)%Z end |}
+  | None => Ok (name_symbol_token l t)
   end.
 
 (* ---- textutils.go: parseInt, parseFloat ------------------------------------------------------------- *)
@@ -528,6 +530,9 @@ Definition null_type_of (v : text) : option N :=
   else if list_eqb v (s "list"%string) then Some TList else if list_eqb v (s "struct"%string) then Some TStruct
   else if list_eqb v (s "sexp"%string) then Some TSexp else None.
 Definition read_null_type : R N :=
+  (* the type name follows the dot directly *)
+  rdo c <- lift t_peek;
+  if negb (is_identifier_start c) then rfail else
   rdo _ <- lift t_next;
   rdo x <- rget;
   if negb (t_token (x_tok x) =? tokenSymbol) then rfail else
@@ -615,6 +620,8 @@ Definition next_before_field_name : R bool :=
     rdo v <- lift (t_read_value tok);
     if (tok =? tokenSymbol) && is_keyword v then rfail else
     rdo k <- (if tok =? tokenSymbolQuoted then rret (tok_text v)
+              else if (tok =? tokenString) || (tok =? tokenLongString)
+              then rret (name_symbol_token (x_lst x) v)          (* a string is never a symbol ID *)
               else of_res (new_symbol_token (x_lst x) v));
     rdo _ <- rmod (fun x => xs_field x (Some k));
     rdo _ <- lift t_next;
@@ -629,7 +636,10 @@ Definition next_before_type_annotations (fuel : nat) : R bool :=
   rdo x <- rget;
   let tok := t_token (x_tok x) in
   let in_sexp := match x_ctx x with CSexp :: _ => true | _ => false end in
-  if tok =? tokenEOF then
+  if match x_annots x with [] => false | _ => true end
+     && ((tok =? tokenEOF) || (tok =? tokenCloseBracket) || (tok =? tokenCloseParen)) then
+    rfail                                  (* annotations must be followed by the value they annotate *)
+  else if tok =? tokenEOF then
     if x_at_top x then rdo _ <- rmod (fun x => xs_eof x true); rret true else rfail
   else if ((tok =? tokenSymbolOperator) || (tok =? tokenDot)) && negb in_sexp then rfail
   else if (tok =? tokenSymbolOperator) || (tok =? tokenDot) || (tok =? tokenSymbolQuoted) || (tok =? tokenSymbol) then
@@ -650,7 +660,13 @@ Definition next_before_type_annotations (fuel : nat) : R bool :=
       rdo _ <- rmod (fun x => xs_lst x LSys); rret false
     else if tok =? tokenSymbolQuoted then
       rdo _ <- set_value TSymbol (XSymbol (tok_text v)); rret true
-    else rdo _ <- on_symbol v ws; rret true
+    else
+      rdo _ <- on_symbol v ws;
+      rdo x1 <- rget;
+      if (x_type x1 =? TStruct) && x_is_null x1 && x_at_top x1 && is_ion_symbol_table (x_annots x1) then
+        (* $ion_symbol_table::null.struct at the top level: an empty symbol table, not a value *)
+        rdo _ <- rmod (fun x => xs_lst (x_clear x) LSys); rret false
+      else rret true
   else if (tok =? tokenString) || (tok =? tokenLongString) then
     rdo v <- lift (t_read_value tok);
     rdo _ <- set_value TString (XString v); rret true
